@@ -85,7 +85,21 @@ fn sweep(ctx: &Ctx, name: &str, space: Space, cfgs: &[Prepared], lv: Levels) {
         space.render(i, &mut idx, &mut raw);
         let mut scheds = vec![];
         for p in cfgs {
-            let input = adapt_to_encoding(&raw, p.encoding);
+            let mut inputs = vec![adapt_to_encoding(&raw, p.encoding)];
+            if p.cfg.adjust_charset {
+                // second variant: what follows the declaration written in the declared encoding
+                // (bytes that are not UTF-8), not only as UTF-8 that happens to be valid there
+                if let Some((pre, Some(label))) = MCTX.iter().find(|(pre, _)| raw.starts_with(pre.as_bytes())) {
+                    if let Some(enc1) = encoding_rs::Encoding::for_label(label.as_bytes()) {
+                        let mut v = pre.as_bytes().to_vec();
+                        v.extend_from_slice(&adapt_to_encoding(&raw[pre.len()..], enc1));
+                        if v != inputs[0] {
+                            inputs.push(v);
+                        }
+                    }
+                }
+            }
+            for input in inputs {
             schedules(input.len(), lv, &mut scheds);
             let mut fired = false;
             for s in std::iter::once(&Sched::whole()).chain(scheds.iter()) {
@@ -107,6 +121,7 @@ fn sweep(ctx: &Ctx, name: &str, space: Space, cfgs: &[Prepared], lv: Levels) {
             }
             if fired || input.len() >= 2 {
                 ctx.nontrivial.insert(digest(&input));
+            }
             }
         }
         if i % 50_021 == 7 {
